@@ -502,10 +502,67 @@ def part2(count=200, seed=1):
     return fails
 
 
+
+# ---------------------------------------------------------------- part 3: seeded edits of translated functions
+# (generated-file key, Props module, Rust file, old text, new text, must the equivalence module still build?)
+# a SEMANTIC edit of a translated body must break the kernel-checked equation (or the translation itself); a
+# HARMLESS rewrite (renamed locals, restructured `if`) must leave the module building.
+SEEDED = [
+    ("C19", "C19Gen", "src/enc/backward_references/mod.rs", "(h >> (64i32 - 17i32)) as u32", "(h >> (64i32 - 18i32)) as u32", False),
+    ("C19", "C19Gen", "src/enc/backward_references/mod.rs",
+     "let h: u32 = BROTLI_UNALIGNED_LOAD32(data).wrapping_mul(kHashMul32);\n    h >> (32i32 - 14i32)",
+     "let product: u32 = BROTLI_UNALIGNED_LOAD32(data).wrapping_mul(kHashMul32);\n    let amount = 32i32 - 14i32;\n    product >> amount", True),
+    ("C19", "C19Gen", "src/enc/static_dict.rs", "| ((p[5] as u64) << 40)", "| ((p[5] as u64) << 48)", False),
+    ("C07", "C07Gen", "src/enc/fixed_queue.rs", "let index = (self.start + self.size) % self.data.len();", "let index = (self.start + self.size + 1) % self.data.len();", False),
+    ("C07", "C07Gen", "src/enc/fixed_queue.rs", "        self.start += 1;\n        self.size -= 1;\n        ret\n    }\n    pub fn how_much",
+     "        self.size -= 1;\n        self.start += 1;\n        let answer = ret;\n        answer\n    }\n    pub fn how_much", True),
+    ("C07", "C07Gen", "src/enc/fixed_queue.rs", "if self.size == self.data.len() {\n            return Err(());\n        }", "if self.size + 1 == self.data.len() {\n            return Err(());\n        }", False),
+]
+
+
+def part3():
+    repo = os.path.join(SCRATCH, "seeded_repo")
+    fails = 0
+    import gen_source
+    real = gen_source.REPO
+    for n, (key, mod, rfile, old, new, must_build) in enumerate(SEEDED + SEEDED_MORE):
+        shutil.rmtree(repo, ignore_errors=True)
+        shutil.copytree(os.path.join(real, "src"), os.path.join(repo, "src"))
+        path = os.path.join(repo, rfile)
+        text = open(path).read()
+        if text.count(old) != 1:
+            print("FAIL: seeded edit %d: the text to replace occurs %d times in %s" % (n, text.count(old), rfile))
+            fails += 1
+            continue
+        open(path, "w").write(text.replace(old, new))
+        gdir = os.path.join(SCRATCH, "seeded_gen")
+        shutil.rmtree(gdir, ignore_errors=True)
+        os.makedirs(gdir)
+        r = subprocess.run([sys.executable, os.path.join(HERE, "rs2lean.py"), gdir, "--repo", repo, "--only", key], capture_output=True, text=True)
+        rep = json.loads(r.stdout.strip().split("\n")[-1])
+        gen = open(os.path.join(gdir, "Fn%s.lean" % key)).read()
+        props = open(os.path.join(LEAN, "BV", "Props", mod + ".lean")).read()
+        imports = [l for l in gen.split("\n") if l.startswith("import ")]
+        imports += [l for l in props.split("\n") if l.startswith("import ") and l.strip() != "import BV.Gen.Fn%s" % key and l not in imports]
+        body = "\n".join(l for l in gen.split("\n") if not l.startswith("import ")) + "\n" + "\n".join(l for l in props.split("\n") if not l.startswith("import "))
+        rc, out = run_lean("\n".join(imports) + "\n" + body, "S_%d.lean" % n)
+        built = rc == 0 and not rep["errors"]
+        if built != must_build:
+            print("FAIL: seeded edit %d (%s, %s): module %s, expected %s\n%s" % (
+                n, rfile, new[:60].replace("\n", " "), "builds" if built else "does not build", "to build" if must_build else "a broken equation", out[-600:] if must_build else ""))
+            fails += 1
+    print("part 3: %d seeded edits, %d failures" % (len(SEEDED + SEEDED_MORE), fails))
+    return fails
+
+
+SEEDED_MORE = []
+
 if __name__ == "__main__":
     f = 0
-    if "--diff-only" not in sys.argv:
+    if "--diff-only" not in sys.argv and "--seeded-only" not in sys.argv:
         f = part1()
     if "--diff" in sys.argv or "--diff-only" in sys.argv:
         f += part2()
+    if "--seeded" in sys.argv or "--seeded-only" in sys.argv:
+        f += part3()
     sys.exit(1 if f else 0)
